@@ -64,4 +64,10 @@ PROPS = {
         "explanation": "Tie B only: every ordered pair of a pool covering every System type, every temporal precision x offset form, Decimal scale variants, Quantities, FHIR primitives and complex elements; collections equal / differing at each position.",
         "assumptions": ["a bare number compared with a Quantity is read, per FHIRPath's implicit conversion, as a Quantity of unit '1' (the code's different answer is the listed finding KF-C05-1)"],
     },
+    "C09": {
+        "level_text": "Proof, with the Go time library modelled. Base/Cal.v proves both calendar round trips for EVERY day number and EVERY valid civil date (era periodicity + one era reflected, no axioms). On the reference computation Props/C09.v proves: type, precision and offset never change; years and months clamp to the month end; a week is 7 days; Time wraps within the day; day arithmetic is monotone in the amount; (x + n days) - n days = x for every valid date and integer n; (x + k months) - k months = x whenever no clamping occurs; unsupported / non-temporal units and calendar units on a Time are errors; quantities add and subtract only within one unit; and the model of the code IS the reference outside the two listed finding classes. The model is hand-written (after the fix: commits) and tied by the correspondence run over the precision x offset x unit x amount grid.",
+        "level_note": "Trusted: Coq kernel, harness + hook (values are read back from their printed form), check driver. Modelled rather than verified: Go time.AddDate followed by the addMonth/addYear day correction (as clamping), time.Add at a fixed offset (as arithmetic on day number and millisecond of day), the Format/Parse truncation, shopspring IntPart/Round/Shift. The process time zone is UTC in this check (zone dependence is C04's subject). Results outside the years 0001..9999 are outside the domain.",
+        "explanation": "Tie B only: `x + q` / `x - q` programs over month ends, leap days, year edges x every precision x offsets x every calendar keyword (singular and plural) and other units x boundary amounts.",
+        "assumptions": ["1 year = 365 days and 1 month = 30 days when converting finer units to a year- or month-precision value, fractions dropped toward zero, as the property states"],
+    },
 }
